@@ -27,7 +27,7 @@ def run(sid):
     meta['checks'] = {**meta.get('checks', {}), **out}
     json.dump(meta, open(f'seeded/{sid}/meta.json', 'w'), indent=1)
     return sid, out
-with cf.ThreadPoolExecutor(max_workers=3) as ex:
+with cf.ThreadPoolExecutor(max_workers=2) as ex:
     for sid, out in ex.map(run, ids):
         for p, o in out.items():
             print(f'{sid:7} {p} {o["status"]:8} {o.get("seconds","")}s {", ".join(o.get("violations", []))[:160]} {o.get("tail","")}', flush=True)
